@@ -2,6 +2,7 @@
  * The instance's operation table is tapped; the n-th backend call (init, encode, decode,
  * reconstruct, fragments_needed) is made to report failure. Deviation-bounded: 0 faults,
  * every single position, every pair of positions over a scripted workload. */
+#include <dlfcn.h>
 #include "stripe.h"
 #include <limits.h>
 
@@ -188,6 +189,59 @@ static void engine(void)
                     if (rc != 0 || ol != st.len || memcmp(out, st.data, st.len)) vh_violation("next-call-failed", "after E=0x%x: a decode with one fragment missing returned %d%s", E, rc, rc == 0 ? " with wrong data" : "");
                     if (rc == 0) liberasurecode_decode_cleanup(st.desc, out);
                 }
+            }
+        }
+        stripe_close(&st, 1);
+        vh_group_end();
+      } }
+    /* failures the ISA-L adapters meet inside themselves (not at the back-end boundary): gf_invert_matrix reporting failure -
+     * made to fail through the reference plug-in's control symbols at the 1st inversion of a decode / reconstruct, and genuinely,
+     * on survivor sets whose k x k matrix is singular (isa_l_rs_vand is not MDS for m >= 5). Same demands as everywhere in this
+     * engine: negative code, no output left for the caller, nothing left allocated, the instance goes on working. */
+    { void *h = dlopen("libisal.so.2", RTLD_NOW);
+      long *calls = h ? dlsym(h, "refisal_invert_calls") : NULL, *fail_at = h ? dlsym(h, "refisal_fail_invert_at") : NULL;
+      if (!calls || !fail_at) { fprintf(stderr, "reference plug-in lacks control symbols\n"); exit(2); }
+      static const struct { struct shape sh; uint32_t sing; } is[] = {
+          { { EC_BACKEND_ISA_L_RS_VAND, 4, 2, 2 }, 0 }, { { EC_BACKEND_ISA_L_RS_CAUCHY, 3, 3, 3 }, 0 }, { { EC_BACKEND_ISA_L_RS_VAND, 2, 5, 5 }, 0 },
+          { { EC_BACKEND_ISA_L_RS_VAND, 6, 5, 5 }, (1u << 0) | (1u << 2) | (1u << 5) | (1u << 7) | (1u << 8) },
+          { { EC_BACKEND_ISA_L_RS_VAND, 10, 5, 5 }, (1u << 0) | (1u << 2) | (1u << 5) | (1u << 11) | (1u << 12) } };
+      for (unsigned xi = 0; xi < sizeof is / sizeof is[0]; xi++) {
+        struct shape sh = is[xi].sh; int n = sh.k + sh.m;
+        if (!vh_group_begin("X/isa-inversion-failures/%s/k%dm%d", be_name(sh.be), sh.k, sh.m)) continue;
+        struct stripe st;
+        if (stripe_open(&st, sh, CHKSUM_CRC32, 2 * (uint64_t)sh.k + 3, PAT_RAMP, NULL) == 0) {
+            uint32_t Es[4] = { 1u, 3u & ((1u << n) - 1), 1u | 1u << sh.k, is[xi].sing };
+            for (int ei = 0; ei < 4; ei++) for (int inj = 0; inj < 2; inj++) {
+                uint32_t E = Es[ei]; if (!E || __builtin_popcount(E) > sh.m) continue;
+                if (ei == 3 && inj) continue;                         /* the singular set fails by itself */
+                if (ei < 3 && !inj) continue;
+                if (!vh_case_begin("E%x/%s", E, inj ? "injected" : "singular")) continue;
+                char **arr = (char **)(st.gptr.p + st.gptr.len) - n; int nf = 0;
+                for (int i = 0; i < n; i++) if (!(E >> i & 1)) arr[nf++] = (char *)frag_at(&st, GP_END, i);
+                for (int step = 0; step < 3; step++) {
+                    /* step 0: decode; 1: reconstruct the lowest missing index; 2: reconstruct the highest missing index */
+                    int dest = step == 1 ? __builtin_ctz(E) : 31 - __builtin_clz(E);
+                    long c0 = ledger_count(), b0 = ledger_bytes(), target = *calls + 1; *fail_at = inj ? target : 0;
+                    char *out = NULL; uint64_t ol = 0; int rc; uint8_t *ob = st.gout.p + st.gout.len - st.flen;
+                    vh_op(step ? "liberasurecode_reconstruct_fragment" : "liberasurecode_decode"); vh_transitions(1);
+                    if (step == 0) rc = liberasurecode_decode(st.desc, arr, nf, st.flen, 0, &out, &ol);
+                    else rc = liberasurecode_reconstruct_fragment(st.desc, arr, nf, st.flen, dest, (char *)ob);
+                    int failed = inj ? *calls >= target : 1;           /* a call that needed no inversion was not made to fail */
+                    *fail_at = 0;
+                    if (!failed) { if (rc != 0) vh_violation("next-call-failed", "step %d returned %d although nothing failed", step, rc); }
+                    else { vh_nontrivial();
+                        if (rc >= 0 && inj) vh_violation("backend-failure-ignored", "%s E=0x%x returned %d although matrix inversion failed", step ? "reconstruct" : "decode", E, rc);
+                        if (rc == 0 && !inj && (step ? memcmp(ob, enc_frag(&st, dest), st.flen) != 0 : (ol != st.len || memcmp(out, st.data, st.len)))) vh_violation("backend-failure-ignored", "%s E=0x%x (singular survivor matrix) returned 0 with wrong bytes", step ? "reconstruct" : "decode", E);
+                        if (rc < 0 && out && ledger_has(out)) { vh_violation("half-done", "decode E=0x%x failed (rc=%d) but left an output buffer for the caller", E, rc); liberasurecode_decode_cleanup(st.desc, out); out = NULL; }
+                    }
+                    if (step == 0 && rc == 0) liberasurecode_decode_cleanup(st.desc, out);
+                    if (ledger_count() != c0 || ledger_bytes() != b0) { char dd[160]; ledger_dump(dd, sizeof dd); vh_violation("half-done", "%s E=0x%x (rc=%d): %ld blocks / %ld bytes remain allocated without any cleanup call (live sizes %s)", step ? "reconstruct" : "decode", E, rc, ledger_count() - c0, ledger_bytes() - b0, dd); }
+                }
+                /* the instance still works */
+                nf = 0; for (int i = 1; i < n; i++) arr[nf++] = (char *)frag_at(&st, GP_END, i);
+                char *out = NULL; uint64_t ol = 0; int rc = liberasurecode_decode(st.desc, arr, nf, st.flen, 0, &out, &ol); vh_transitions(1);
+                if (rc != 0 || ol != st.len || memcmp(out, st.data, st.len)) vh_violation("next-call-failed", "after E=0x%x: a decode with one fragment missing returned %d%s", E, rc, rc == 0 ? " with wrong data" : "");
+                if (rc == 0) liberasurecode_decode_cleanup(st.desc, out);
             }
         }
         stripe_close(&st, 1);
